@@ -142,6 +142,13 @@ fn words_for(t: &T, rng: &mut Rng, maxlen: usize, extra_random: usize) -> Vec<Ve
         words.extend(next.iter().cloned());
         frontier = next;
     }
+    // counting needs length: for terms with loops, the powers of the first letter up to 26
+    if matches!(t, T::Loop(..) | T::Pow(..) | T::SmtLoop(..) | T::Star(..) | T::Plus(..)) && t.children().iter().any(|c| c.has_loop()) && t.cost() <= 200 {
+        let c = pick[0];
+        for n in 4..=13 {
+            words.push(vec![c; n]);
+        }
+    }
     for _ in 0..extra_random {
         let n = rng.range(1, 8) as usize;
         words.push((0..n).map(|_| *rng.pick(&ls)).collect());
@@ -221,7 +228,7 @@ pub fn drive_c01(a: &Args) {
     // several managers alive at once, used alternately (and a wrapper thread running concurrently): managers are
     // independent - nothing may be shared between them
     {
-        let picks: Vec<usize> = (0..fams.len()).filter(|i| i % 19 == (a.seed as usize) % 19 && !fams[*i].t.has_quot() && fams[*i].t.cost() <= COST_LIMIT).collect();
+        let picks: Vec<usize> = (0..fams.len()).filter(|i| i % 5 == (a.seed as usize) % 5 && !fams[*i].t.has_quot() && fams[*i].t.cost() <= COST_LIMIT).collect();
         let bg_terms: Vec<T> = picks.iter().map(|&i| fams[i].t.smt_form()).collect();
         let bg = std::thread::spawn(move || {
             // concurrent use of the thread-local manager of another thread
